@@ -439,6 +439,7 @@ func c07Run(ci interface{}, r *core.Rec) {
 		for _, l := range []lim{
 			{"vandermonde", 32768, 1, false}, {"vandermonde", 32769, 1, true}, {"vandermonde", 1, 65535, false}, {"vandermonde", 1, 65536, true},
 			{"vandermonde", 3, 65535, false}, {"vandermonde", 3, 65534, false}, {"vandermonde", 5, 65535, false},
+			{"vandermonde", 32768, 3, false}, {"vandermonde", 32767, 3, false}, {"vandermonde", 257, 3, false}, {"vandermonde", 256, 3, false},
 			{"cauchy", 65534, 1, false}, {"cauchy", 65535, 1, true}, {"cauchy", 1, 65534, false}, {"cauchy", 1, 65535, true},
 		} {
 			var err error
@@ -460,7 +461,7 @@ func c07Run(ci interface{}, r *core.Rec) {
 				// round trip at the limit: lose the last data shard
 				orig := c07Data(r.Seed, l.d, 2)
 				parity := coder.GenerateParity(orig)
-				if l.kind == "vandermonde" && l.d <= 8 {
+				if l.kind == "vandermonde" && (l.d <= 8 || l.p <= 8) {
 					// the highest rows against the definition (row e = sum_j c_j^e * data_j), not only against the coder itself
 					for _, e := range []int{0, 1, 2, 255, 256, 32767, 32768, 65533, 65534} {
 						if e < l.p && !bytes.Equal(parity[e], refVandermondeParity(orig, e)) {
@@ -496,7 +497,7 @@ func init() {
 	core.Register(&core.Prop{
 		ID:    "C07",
 		Level: "model_checking",
-		Rule: "bounded-exhaustive erasure patterns: both coders x every (d<=6,p<=5) (thorough d<=8,p<=6) x EVERY subset of missing data shards x EVERY subset of missing parity shards x shard length {2,4,14,16,18,32,34,66} x goroutines {1,2,3,5}; Vandermonde parity also compared with the reference sum; structured large code (140,260): 2-erasures with only parity rows {0,e} available for every e (contains the construction's singular pairs), and 3-erasures built on every column pair whose 2x2 minor vanishes (zero pivots, i.e. row swaps during elimination) x every third column x three row sets; tight patterns on (8,12),(5,12),(3,14) (thorough more): every k-subset of missing data x every k-subset of surviving parity; Cauchy (140,20); the documented limits (incl. 65535 parity rows for 1, 3 and 5 data shards: the highest rows are compared with the definition and used for reconstruction). " +
+		Rule: "bounded-exhaustive erasure patterns: both coders x every (d<=6,p<=5) (thorough d<=8,p<=6) x EVERY subset of missing data shards x EVERY subset of missing parity shards x shard length {2,4,14,16,18,32,34,66} x goroutines {1,2,3,5}; Vandermonde parity also compared with the reference sum; structured large code (140,260): 2-erasures with only parity rows {0,e} available for every e (contains the construction's singular pairs), and 3-erasures built on every column pair whose 2x2 minor vanishes (zero pivots, i.e. row swaps during elimination) x every third column x three row sets; tight patterns on (8,12),(5,12),(3,14) (thorough more): every k-subset of missing data x every k-subset of surviving parity; Cauchy (140,20); the documented limits (incl. 32768 / 32767 / 257 / 256 data shards with 3 parity rows and 65535 parity rows for 1, 3 and 5 data shards: the highest rows are compared with the definition and used for reconstruction). " +
 			"Oracle: too few parity => NotEnoughParityShardsError; Cauchy always exact; Vandermonde exact iff the reference determinant of (lowest available rows x missing columns) != 0, else error or exact; nil => exact; supplied data shards unchanged; the shard lists are windows into longer lists, whose entries behind the window must not change. non-trivial = every case (all contain reconstructions)",
 		Assumptions: []string{"the statement does not constrain supplied parity shards; they are not compared"},
 		NewCase:     func() interface{} { return &c07Case{} },
